@@ -460,7 +460,7 @@ def gen_options(rng, t1, t2, P, n, hot=()):
     out = []
     for _ in range(n):
         kind = rng.choice(["lit1", "lit1", "lit1", "lit3", "lit3", "rx_prefix", "rx_exact", "rx_class",
-                           "inc1", "inc1", "inc2", "inc_any", "unrooted", "lit_rx", "ex_inc"])
+                           "inc1", "inc1", "inc2", "inc_any", "unrooted", "lit_rx", "ex_inc", "spelling"])
         zip_ = rng.random() < 0.6
         pool = nonroot if zip_ or rng.random() < 0.25 else keypaths
         if hot and rng.random() < 0.65:
@@ -491,6 +491,16 @@ def gen_options(rng, t1, t2, P, n, hot=()):
         elif kind == "lit_rx":
             opt["ex"] = [render(rng.choice(pool))]
             opt["rx"] = ["^" + rx_escape(render(rng.choice(pool))) + "$"]
+        elif kind == "spelling":
+            # what add_root_to_paths / the set really contain: another spelling of an existing path never matches
+            q = rng.choice(pool)
+            alt = render(q).replace("'", '"') if rng.random() < 0.5 else render(q).replace("root", "", 1).lstrip("[").rstrip("]").strip("'")
+            if not alt:
+                alt = "0"
+            if rng.random() < 0.5:
+                opt["ex"] = [alt]
+            else:
+                opt["inc"] = [alt]
         elif kind == "ex_inc":
             opt["inc"] = [render(rng.choice(strpaths))]
             opt["ex"] = [render(rng.choice(pool))]
@@ -520,6 +530,8 @@ def in_quantifier(opt, spec):
     """the property's quantifier: positional mode for arbitrary paths; default
     alignment only when no filtered path ends in a sequence index (the theorem's
     guard: slightly wider than "paths made of dictionary keys")"""
+    if spec.inc_given and not spec.inc_paths:
+        return False          # an include string that names no position of either input
     if opt["zip"]:
         return True
     for q in spec.ex_paths:
@@ -711,6 +723,18 @@ WITNESSES = [
     ("C13_include_substring_refuted", [{'xroot[1]': 1}, 5], [{'xroot[1]': 2}, 6],
      {"zip": True, "thr": 0, "inc": ["root[0]['xroot[1]']"], "kind": "witness"},
      {'values_changed': {"root[0]['xroot[1]']": {'new_value': 2, 'old_value': 1}, 'root[1]': {'new_value': 6, 'old_value': 5}}}),
+    ("C13_exclude_independence_threshold_refuted (with the excluded key)", {'a': 1, 'b': 2}, {'a': 1, 'c': 2},
+     {"zip": True, "thr": 0.33, "ex": ["root['a']"], "kind": "witness"},
+     {'dictionary_item_added': ["root['c']"], 'dictionary_item_removed': ["root['b']"]}),
+    ("C13_exclude_independence_threshold_refuted (without it)", {'b': 2}, {'c': 2},
+     {"zip": True, "thr": 0.33, "ex": ["root['a']"], "kind": "witness"},
+     {'values_changed': {'root': {'new_value': {'c': 2}, 'old_value': {'b': 2}}}}),
+    ("exclude_under_include_witness (K13d)", {'a': {'b': 1, 'c': 2}}, {'a': {'b': 2, 'c': 3}},
+     {"zip": True, "thr": 0, "ex": ["root['a']['b']"], "inc": ["root['a']"], "kind": "witness"},
+     {'values_changed': {"root['a']['b']": {'new_value': 2, 'old_value': 1}, "root['a']['c']": {'new_value': 3, 'old_value': 2}}}),
+    ("set member pseudo-index (K13c, not in the model)", {1, 2}, {2, 3},
+     {"zip": True, "thr": 0, "rx": [r"\[0\]$"], "kind": "witness"},
+     {'set_item_added': ['root[3]']}),
     ("include_substring_sibling_refuted", {"xroot['a']": 1, 'a': 1, 'b': 1}, {"xroot['a']": 2, 'a': 2, 'b': 2},
      {"zip": True, "thr": 0, "inc": ["root[\"xroot['a']\"]"], "kind": "witness"},
      {'values_changed': {"root['a']": {'new_value': 2, 'old_value': 1}}}),
@@ -729,7 +753,7 @@ def witnesses(ctx):
 
 # --------------------------------------------------------------------------
 def run(ctx):
-    npairs = 4000 if ctx.thorough else 600
+    npairs = 4000 if ctx.thorough else 800
     nopts = 10 if ctx.thorough else 8
     nw = core.NCPU
     per = (npairs + nw - 1) // nw
